@@ -22,6 +22,8 @@ NODE_UNIVERSES = [
     [0, 1, 2, "a", "b", "10"],
     [-1, 0, 7, 3, 12],
     [0, 1, 2],
+    [0, 8, 16, 1, 9],                # ints that collide in a small hash table: equal sets iterate in different orders
+    [0, 1, 2, "a", "b", "10"],       # (mixed labels twice as likely: sorted() of such members raises)
 ]
 EDGE_UNIVERSES = [
     [0, 1, 2, 3, 4, 5],
@@ -29,6 +31,7 @@ EDGE_UNIVERSES = [
     ["e0", "e1", "x", "y"],
     [0, 1, 5, "e", "10", -2],
     [3, 2, 1, 0, 8],
+    [0, 1, 10**30, 10**309, 2],      # integers beyond float precision / float range are integers too
 ]
 ATTR_KEYS = ["w", "color", "label", "weight", "m"]
 ATTR_VALS = [0, 1, 2, "r", "g", None, [1, 2], {"k": [1]}]
@@ -138,6 +141,8 @@ class Gen:
         if name == "remove_node":
             return {"op": name, "n": enc_id(self.node()), "strong": b(), "remove_empty": b(0.6)}
         if name == "remove_nodes_from":
+            if b(0.08):     # the network's own live view as the iterable (the call fills in "ns")
+                return {"op": name, "ns": [], "view": True, "strong": b(), "remove_empty": b(0.6)}
             return {"op": name, "ns": [enc_id(self.node()) for _ in range(r.randint(0, 3))], "strong": b(), "remove_empty": b(0.6)}
         if name == "add_edge":
             idx = "$auto" if b(0.55) else enc_id(self.eid())
@@ -165,6 +170,8 @@ class Gen:
         if name == "remove_edge":
             return {"op": name, "e": enc_id(self.eid())}
         if name == "remove_edges_from":
+            if b(0.08):     # the network's own live view as the iterable (the call fills in "es")
+                return {"op": name, "es": [], "view": True}
             return {"op": name, "es": [enc_id(self.eid()) for _ in range(r.randint(0, 3))]}
         if name == "remove_node_from_edge":
             return {"op": name, "e": enc_id(self.eid()), "n": enc_id(self.node()), "remove_empty": b(0.6)}
@@ -316,6 +323,9 @@ def call(H, op):
     if name == "remove_node":
         return H.remove_node(dec_id(op["n"]), **_kw(op, "strong", "remove_empty"))
     if name == "remove_nodes_from":
+        if op.get("view"):
+            op["ns"] = [enc_id(n) for n in H.nodes]
+            return H.remove_nodes_from(H.nodes, **_kw(op, "strong", "remove_empty"))
         return H.remove_nodes_from([dec_id(n) for n in op["ns"]], **_kw(op, "strong", "remove_empty"))
     if name == "add_edge":
         ms = [dec_id(m) for m in op["members_raw"]]
@@ -335,6 +345,9 @@ def call(H, op):
     if name == "remove_edge":
         return H.remove_edge(dec_id(op["e"]))
     if name == "remove_edges_from":
+        if op.get("view"):
+            op["es"] = [enc_id(e) for e in H.edges]
+            return H.remove_edges_from(H.edges)
         return H.remove_edges_from([dec_id(e) for e in op["es"]])
     if name == "remove_node_from_edge":
         return H.remove_node_from_edge(dec_id(op["e"]), dec_id(op["n"]), **_kw(op, "remove_empty"))
@@ -473,7 +486,7 @@ def snapshot(H, out="ok"):
 
 
 def to_request(op):
-    r = {k: v for k, v in op.items() if k not in ("members_raw", "seed", "weight", "share_sets", "omit")}
+    r = {k: v for k, v in op.items() if k not in ("members_raw", "seed", "weight", "share_sets", "omit", "view")}
     return r
 
 
